@@ -154,6 +154,26 @@ func (a *Analyzer) CheckRule(clause ast.Clause) error {
 						boundVars[p.Interval.End.Variable] = true
 					}
 				}
+			case ast.Ineq:
+				// Both sides are compared as they are at this point of the
+				// evaluation; a variable without a value would unify with anything
+				// and the inequality would silently fail.
+				vars := make(map[ast.Variable]bool)
+				ast.AddVars(p, vars)
+				for v := range vars {
+					if boundVars[v] {
+						continue
+					}
+					if x := uf.Get(v); x != nil {
+						if _, isconst := x.(ast.Constant); isconst {
+							continue
+						}
+						if u, isvar := x.(ast.Variable); isvar && boundVars[u] {
+							continue
+						}
+					}
+					return fmt.Errorf("variable %v in %v will not have a value yet; move the subgoal to the right", v, p)
+				}
 			case ast.Eq:
 				if _, isconst := p.Left.(ast.Constant); isconst {
 					if v, isvar := p.Right.(ast.Variable); isvar {
